@@ -710,6 +710,27 @@ theorem inverseMembers_nCell {w w' : World} {link ub : Bool} {ms ids : List Nat}
 theorem CA_fst_of_eq {α : Type} {f : World × α} {a : World} {b : α} (he : f = (a, b)) (h : CA f.1) : CA a := by
   rw [he] at h; exact h
 
+theorem CA_copyMembers {w : World} (h : CA w) (ms : List Nat) : CA (copyMembers w ms).1 := by
+  induction ms generalizing w with
+  | nil => exact h
+  | cons m ms ih =>
+    unfold copyMembers
+    split
+    · exact ih h
+    · next o ho => exact ih (CA_copyObj h (h.objs m o ho))
+
+theorem CA_copyAny {w : World} (h : CA w) {o : Obj} (ho : ObjCA w.nCell o) : CA (copyAny w o).1 := by
+  unfold copyAny
+  split
+  · have h1 := CA_copyObj h ho
+    have h2 := CA_copyMembers h1 o.members
+    obtain ⟨_, _, hn⟩ := copyMembers_frame (copyObj w o).1 o.members
+    refine h2.setObj _ ?_
+    have hc : ObjCA (copyMembers (copyObj w o).1 o.members).1.nCell (copyRec w o) := by
+      rw [hn]; exact ho.copyRec w
+    exact ⟨hc.slot, hc.p, hc.u, hc.v⟩
+  · exact CA_copyObj h ho
+
 /-! ### every operation preserves the allocation invariant -/
 
 theorem CA_step {w : World} (h : CA w) (op : Op) : CA (step w op).1 := by
@@ -730,7 +751,7 @@ theorem CA_step {w : World} (h : CA w) (op : Op) : CA (step w op).1 := by
     simp only [step]
     split
     · exact h
-    · next o ho => exact CA_copyObj h (h.objs id o ho)
+    · next o ho => exact CA_copyAny h (h.objs id o ho)
   | inverse id link ub =>
     simp only [step]
     split
@@ -858,10 +879,13 @@ theorem CA_step {w : World} (h : CA w) (op : Op) : CA (step w op).1 := by
     split
     · exact h
     · next o ho =>
-      have := CA_gridSet (CA_copyObj h (h.objs id o ho)) (objs_copyObj_new w o) g
       split
-      · next w' hg => exact CA_fst_of_eq hg this
       · exact h
+      · next oc hoc =>
+        have := CA_gridSet (CA_copyAny h (h.objs id o ho)) hoc g
+        split
+        · next w' hg => exact CA_fst_of_eq hg this
+        · exact h
   | condition_ id c =>
     simp only [step]
     split
@@ -871,7 +895,7 @@ theorem CA_step {w : World} (h : CA w) (op : Op) : CA (step w op).1 := by
     simp only [step]
     split
     · exact h
-    · next o ho => exact CA_condSet (CA_copyObj h (h.objs id o ho)) _ c
+    · next o ho => exact CA_condSet (CA_copyAny h (h.objs id o ho)) _ c
   | reset id =>
     simp only [step]
     split
